@@ -149,6 +149,14 @@ func TestCheck(t *testing.T) {
 		base := Base(d)
 		sites := AllSites(d, base)
 		nsites += len(sites)
+		if d != "sqlite" {
+			// a second schema with a table of the same name: a foreign key re-pointed from one to the other
+			for two := 1; two <= 3; two++ {
+				if !ev.Each(col, "two-schemas-same-table-name", Case{Dialect: d, Base: base, Level: "realm", TwoSchemas: two}, check, known) {
+					return
+				}
+			}
+		}
 		for _, level := range []string{"schema", "realm", "table"} {
 			// null relations
 			for _, perm := range []int64{0, 1, 2, 3} {
